@@ -15,7 +15,7 @@ DefLine(i) == LET d == Defs[i] IN
    \* semantic attributes, only used to label rejected records with a signature
    kind |-> d.kind, bits |-> d.bits, fb |-> d.fb, rev |-> d.rev, div |-> d.div, nvals |-> Len(d.vals)]
 CasesOf(i) ==
-  LET T == TextsOf(Defs[i], Thorough) \cup (IF Thorough THEN RandTexts(Seed + 7 * i, 120) ELSE {})
+  LET T == TextsOf(Defs[i], Thorough) \cup (IF Thorough THEN RandTexts(Seed + 7 * i, 400) ELSE {})
       sq == SetToSeq(T)
   IN [j \in 1..Len(sq) |-> [k |-> "case", d |-> i, t |-> Tup(sq[j])]]
 RECURSIVE CatCases(_)
